@@ -86,6 +86,15 @@ func (c *Conn) handleFetch(dec *imapwire.Decoder, numKind NumKind) error {
 	if numKind == NumKindUID {
 		options.UID = true
 	}
+	if c.readOnly {
+		// Fetching a message must not set \Seen in a read-only mailbox
+		for _, bs := range options.BodySection {
+			bs.Peek = true
+		}
+		for _, bs := range options.BinarySection {
+			bs.Peek = true
+		}
+	}
 
 	w := &FetchWriter{conn: c, options: writerOptions}
 	if err := c.session.Fetch(w, numSet, &options); err != nil {
